@@ -153,6 +153,12 @@ func init() {
 					// a comment tag swallows everything up to the next %>: keep it self-contained
 					s = seg{"<%# a comment %>", ""}
 				}
+				// two adjacent text segments must not spell a tag opener or an escape between them
+				if cur := src.String(); !strings.HasPrefix(s.src, "<%") && len(cur) > 0 && len(s.src) > 0 {
+					if joint := cur[len(cur)-1:] + s.src[:1]; joint == "<%" || joint == "\\<" || cur[len(cur)-1] == '\\' {
+						continue
+					}
+				}
 				src.WriteString(s.src)
 				want.WriteString(s.want)
 			}
